@@ -1,5 +1,6 @@
 import CrdtModel.Spec.MapKeys
 import CrdtModel.Props.C04
+import CrdtModel.Proofs.OrswotExec
 set_option linter.unusedSectionVars false
 /-!
 # C05 — Map keys are observed-remove; removing a key resets only what was seen
@@ -164,6 +165,10 @@ theorem keys_converge {s' : CMap K V A} {L' : List (MapOp K VOp A)} (wf : LogWF 
     rw [← FMap.get?_mapVal, ← FMap.get?_mapVal, he]
   simp only [CMap.get]
   cases h1 : s.entries.get? k <;> cases h2 : s'.entries.get? k <;> simp_all
+
+/-- the key level of every derivable Map state IS the executable Orswot specification of the key-level knowledge -/
+theorem keys_eq_spec (wf : LogWF (keyLog U)) (h : CMap.Reach ops U s L) : s.keysView = specState (keyLog L) :=
+  eq_specState (keys_rep wf h).2
 
 /-! ## nested contents: local reset semantics of one key-remove step (`_partial`) -/
 
